@@ -80,8 +80,8 @@ class TimedWorld:
     fn = aocheck.flat_chart(rec, on_dispatch=on_dispatch, sigs=["VA", "VB", "VC", "VD", "VE", "VGATE", "VSTOP", "VSLOW", "VCRASH"])
     return chart, fn
 
-  def run(self, body, step_limit=600000):
-    s = detsched.Scheduler(schedule=self.case["schedule"], step_limit=step_limit,
+  def run(self, body, step_limit=600000, opcodes=False):
+    s = detsched.Scheduler(schedule=self.case["schedule"], step_limit=step_limit, opcodes=opcodes,
                            trace_files=[self.files["activeobject"]], timed=self.case.get("timed_schedule"))
     self.sched = s
     detsched.guarded_run(s, body)
